@@ -3,7 +3,7 @@
 case = {"payload": bytes, "coding": name, "framing": len|chunked|eof, "chunks": [sizes], "ext": False|True|2|3|4 (chunk extensions: none, one, two, spaced with a quoted ';', empty), "segs": [sizes],
         "decode": bool, "calls": [[api, arg], ...], "finish": [api, arg]}
 coding = identity | gzip | gzip2 (two members) | deflate | rawdeflate | zstd | zstd2 (two frames) | "gzip, deflate" ... (stacked)
-calls  = read None|n, read1 None|n, readinto k          finish = none | read | stream amt | read_chunked amt | iter | data (preload)
+calls  = read None|n, read1 None|n, readinto k, spiece amt (one piece from stream(amt), generator kept), sdrop amt (same, generator dropped)          finish = none | read | stream amt | read_chunked amt | iter | data (preload)
 The response is served by the in-memory network in the given segmentation and read through a real pool, connection,
 http.client and HTTPResponse.  Observation: the piece each call returned, the pieces of the finisher, and how it ended."""
 from __future__ import annotations
@@ -131,7 +131,7 @@ def decoder_table(case, raw):
     return tbl, bytes(out)
 
 
-API = {"read": 0, "read1": 1, "readinto": 2}
+API = {"read": 0, "read1": 1, "readinto": 2, "spiece": 3, "sdrop": 3}
 FIN = {"none": 0, "read": 1, "stream": 2, "read_chunked": 3, "iter": 4, "data": 5}
 
 
@@ -203,6 +203,7 @@ def impl(case):
     pieces = []
     fin_pieces = []
     tape = []
+    gens = []
     end = 0
     dc = case["decode"]
     with installed(net):
@@ -221,6 +222,15 @@ def impl(case):
                         p = r.read(arg, decode_content=dc)
                         if arg is not None and len(p) > arg:
                             problems.append("read(%d) returned %d bytes" % (arg, len(p)))
+                    elif api in ("spiece", "sdrop"):
+                        # one piece taken from stream(amt); the generator is kept alive ("spiece") or dropped at once ("sdrop")
+                        g = r.stream(arg, decode_content=dc)
+                        p = next(g, b"")
+                        if api == "spiece":
+                            gens.append(g)
+                        else:
+                            g.close()
+                        del g
                     elif api == "read1":
                         p = r.read1(arg, decode_content=dc)
                         if arg is not None and p is not None and len(p) > arg:
@@ -293,13 +303,15 @@ def oracle(case, obs):
 
 def in_model_domain(case):
     """the model's read_chunked assumes nothing was read before it (the known finding C12-F1 lies outside)"""
-    return not (case["finish"][0] == "read_chunked" and case["calls"])
+    return not (case["finish"][0] == "read_chunked" and case["calls"]) and not any(c[0] in ("spiece", "sdrop") for c in case["calls"])
 
 
 def signature(case, obs, msg):
     sig = {"msg": (msg or "")[:40]}
     if case["finish"][0] == "read_chunked" and case["calls"] and case["framing"] == "chunked":
         sig["kind"] = "read_chunked-after-partial-read"
+    if case["framing"] == "chunked" and any(c[0] in ("spiece", "sdrop") for c in case["calls"]):
+        sig = {"kind": "read-after-partial-stream-of-a-chunked-body"}
     return sig
 
 
@@ -370,8 +382,24 @@ def cases(rng, tier):
                         continue
                     out.append({"payload": pay, "coding": coding, "framing": framing, "chunks": [3, 11], "ext": (2 if coding == "gzip" else 3 if coding == "identity" else False), "segs": [7, 1, 64], "decode": True,
                                 "calls": [list(c) for c in calls], "finish": list(fin)})
+    # one piece taken from stream(amt), then other reads: the generator kept alive or dropped
+    for coding in ("identity", "gzip"):
+        for framing in ("len", "chunked", "eof"):
+            for api in ("spiece", "sdrop"):
+                for amt in (2, 7, 1000):
+                    for fin in (["read"], ["stream", 3], ["iter"]):
+                        out.append({"payload": pay, "coding": coding, "framing": framing, "chunks": [5, 16], "ext": False, "segs": [10000], "decode": True,
+                                    "calls": [[api, amt]], "finish": list(fin)})
+                        out.append({"payload": pay, "coding": coding, "framing": framing, "chunks": [5, 16], "ext": False, "segs": [7, 64], "decode": True,
+                                    "calls": [["read", 3], [api, amt], ["read1", 4]], "finish": list(fin)})
     for _ in range(8000 if tier == "quick" else 200000):
         out.append(one_case(rng))
+    for _ in range(600 if tier == "quick" else 15000):
+        c = one_case(rng)
+        if c["finish"][0] in ("data", "read_chunked"):
+            c["finish"] = ["read"]
+        c["calls"].insert(rng.randint(0, len(c["calls"])), [rng.choice(["spiece", "sdrop"]), rng.choice(NS)])
+        out.append(c)
     return out
 
 
